@@ -134,6 +134,8 @@ pub fn jobs_for(prop: &str) -> Vec<Job> {
         "C11" => {
             let mut v = seq_all(Focus::Snapshots, 1);
             v.extend(conc_all());
+            // slow and broken snapshot uploads: id and bytes must still come from one complete upload
+            v.extend(wire_all().into_iter().filter(|j| j.name == "wire-mem"));
             v
         }
         "C03" => {
